@@ -147,4 +147,31 @@ theorem openHandle_wf (h : Handle) (h1 h2 b0 : Bytes) (hh : HdrOk h2 b0) (recs :
   refine ⟨l, ?_⟩
   rcases hm with rfl | rfl <;> (simp only [openHandle, hrd]; rw [hl])
 
+/-! ### crash images as prefixes of the file after the session; prefixes of record lists -/
+
+
+theorem take_image (h1 h2 b0 : Bytes) (committed ps : List KV) (n : Nat) :
+    (wfFile h1 h2 b0 (committed ++ ps)).take (bofOf h2 b0 + (blocks committed).length + n) =
+      image h1 h2 b0 committed ps n := by
+  have hl := encHeader_length h1 h2 b0
+  unfold wfFile image
+  rw [blocks_append, ← List.append_assoc, List.take_append, List.take_of_length_le (by simp; omega)]
+  congr 1
+  simp only [List.length_append]
+  congr 1
+  omega
+
+theorem take_eq_of_blocks_length_le (l : List KV) (j : Nat) (h : (blocks l).length ≤ (blocks (l.take j)).length) :
+    l.take j = l := by
+  have hs : blocks l = blocks (l.take j) ++ blocks (l.drop j) := by
+    rw [← blocks_append, List.take_append_drop]
+  have hl : (blocks (l.drop j)).length = 0 := by
+    have := congrArg List.length hs
+    simp only [List.length_append] at this
+    omega
+  have := blocks_length_ge (l.drop j)
+  have hd : l.drop j = [] := List.eq_nil_of_length_eq_zero (by omega)
+  conv => rhs; rw [← List.take_append_drop j l, hd, List.append_nil]
+
+
 end Molli.Lemmas.Ukv
